@@ -36,6 +36,11 @@ def coherent(out, model, attrs, shape, order_seed, tag=''):
     P, _ = inf.potentials_joint(model, attrs, shape)
     if not np.all(np.isfinite(P)):
         return out.fail('invalid:potentials' + tag, 'stored parameters do not define a finite distribution')
+    # float64 resolves log-probabilities only to ~2e-16 x |theta|: the sum tolerance grows with the magnitude of the
+    # stored parameters (RDA's dual iterate scales with 1/L and reaches 1e6 for nearly uninformative measurements)
+    mag = max([float(np.max(np.abs(v[np.isfinite(v)]))) if np.isfinite(v).any() else 0.0
+               for v in (np.asarray(model.potentials[c].values, dtype=float) for c in model.cliques)] + [0.0])
+    sum_tol = 1e-8 + 1e-14 * mag
     rt, at = 1e-6, 1e-9 * tot
     if hasattr(model, 'marginals'):
         for cl in model.cliques:
@@ -58,7 +63,7 @@ def coherent(out, model, attrs, shape, order_seed, tag=''):
                 return out.fail('invalid:nonfinite' + tag, 'project(%s) has non-finite entries' % (want,))
             if np.min(v) < -1e-9 * tot:
                 return out.fail('invalid:negative' + tag, 'project(%s) has a negative entry %r' % (want, float(np.min(v))))
-            if abs(float(v.sum()) - tot) > 1e-8 * tot:
+            if abs(float(v.sum()) - tot) > sum_tol * tot:
                 return out.fail('invalid:sum' + tag, 'project(%s) sums to %r, model.total = %r' % (want, float(v.sum()), tot))
             ok, why = oracles.close(v, oracles.marg(P, attrs, want), rt, at)
             if not ok:
